@@ -301,7 +301,8 @@ class C06(Property):
             # clause (6): a second filter derived from this one (3*f, -f)
             # while both read their coefficient streams through 2-use hubs;
             # both are called, in this order / interleaved
-            "sibling": [W.pick("sib", ["scale3", "neg", "rscale3"]),
+            "sibling": [W.pick("sib", ["scale3", "neg", "rscale3", "same",
+                                       "copy"]),
                         W.pick("sibord", ["g-f", "f-g", "mixed"])]
             if W.chance("sibling", 1, 2) else None}
 
@@ -1046,6 +1047,15 @@ class C06(Property):
             gD, factor = fD * 3, 3
           elif sib[0] == "rscale3":
             gD, factor = 3 * fD, 3
+          elif sib[0] == "same" and all(c[0] == "c" for k, c in ht["den"]
+                                        if k == 0):
+            # the very same filter called twice (not with a Stream a0: the
+            # variable-gain call rewrites the filter's own denominator on
+            # the pinned tree, calling such an object twice is outside the
+            # statement - seeded/NOTES.json C06h-1)
+            gD, factor = fD, 1
+          elif sib[0] == "copy":      # f.copy() and f
+            gD, factor = fD.copy(), 1
           else:
             gD, factor = -fD, -1
           n_out = len(ys)
